@@ -316,7 +316,12 @@ func (s *vfSM) checkDrained(vs *[]*vfViol) {
 	}
 	for k := range pk {
 		if _, ok := mk[k]; !ok {
-			s.add(vs, vfV("C13", "accounted-but-not-stored", "key %d is charged (cost %d) but not held in the map", k, pk[k]))
+			v := vfV("C13", "accounted-but-not-stored", "key %d is charged (cost %d) but not held in the map", k, pk[k])
+			if pk[k] != 0 {
+				// RemainingCost() then is not "MaxCost minus the sum of the costs of the resident keys" (C03, second sentence)
+				v.Also = "C03"
+			}
+			s.add(vs, v)
 		}
 	}
 	for k, e := range s.resident {
